@@ -122,6 +122,8 @@ impl<M: Model> Receiver<M> {
 
         match msg {
             Some(mut msg) => {
+                #[cfg(feature = "verif-hooks")]
+                crate::verif_hooks::probe(crate::verif_hooks::site::CHAN_RECV_POPPED, &*self.inner as *const Inner<M> as usize);
                 // Decrement the count of in-flight messages.
                 THREAD_MSG_COUNT.set(THREAD_MSG_COUNT.get().wrapping_sub(1));
 
@@ -132,7 +134,11 @@ impl<M: Model> Receiver<M> {
                 // in the queue and signal to one awaiting sender that a slot is
                 // available for sending.
                 drop(msg);
+                #[cfg(feature = "verif-hooks")]
+                crate::verif_hooks::probe(crate::verif_hooks::site::CHAN_RECV_SLOT_RELEASED, &*self.inner as *const Inner<M> as usize);
                 self.inner.sender_signal.notify_one();
+                #[cfg(feature = "verif-hooks")]
+                crate::verif_hooks::probe(crate::verif_hooks::site::CHAN_RECV_SENDER_NOTIFIED, &*self.inner as *const Inner<M> as usize);
 
                 // Await the future provided by the message.
                 let mut fut = RecycleBox::into_pin(fut);
@@ -221,6 +227,8 @@ impl<M: Model> Sender<M> {
             coerce_box!(RecycleBox::recycle(vacated_box, MessageFnOnce::new(msg_fn)))
         });
 
+        #[cfg(feature = "verif-hooks")]
+        crate::verif_hooks::probe(crate::verif_hooks::site::CHAN_SEND_BEFORE_PUSH, self.channel_id());
         let success = self
             .inner
             .sender_signal
@@ -239,7 +247,11 @@ impl<M: Model> Sender<M> {
             .await;
 
         if success {
+            #[cfg(feature = "verif-hooks")]
+            crate::verif_hooks::probe(crate::verif_hooks::site::CHAN_SEND_PUSHED, self.channel_id());
             self.inner.receiver_signal.notify();
+            #[cfg(feature = "verif-hooks")]
+            crate::verif_hooks::probe(crate::verif_hooks::site::CHAN_SEND_NOTIFIED, self.channel_id());
 
             // Increment the count of in-flight messages.
             THREAD_MSG_COUNT.set(THREAD_MSG_COUNT.get().wrapping_add(1));
